@@ -25,6 +25,7 @@ def tsize : Task → Nat
   | .acts as => 3 * as.length
   | .act _ => 2
   | .make _ _ h => 2 + (match h with | some h => 3 * h.length + 1 | none => 0)
+  | .makeS _ _ h => 2 + (match h with | some h => 3 * h.length + 1 | none => 0)
   | _ => 0
 
 def textra : Task → Nat
@@ -42,10 +43,19 @@ def tbeta : Task → Nat
   | .close => 3
   | .closeLoop => 2
   | .sendLoop _ _ => 2
-  | .frames _ _ _ => 3
+  | .frames _ _ _ => 5
+  | .makeS _ _ _ => 3
+  | .lost => 4
+  | .dial => 3
+
+def talpha : Task → Nat
+  | .frames _ _ _ => 5
+  | .lost => 5
+  | .dial => 5
+  | _ => 4
 
 /-- fuel that suffices to run `task` from `s` -/
-def bound (s : StR) (task : Task) : Nat := 4 * (pot s + tsize task) + tbeta task + textra task
+def bound (s : StR) (task : Task) : Nat := talpha task * (pot s + tsize task) + tbeta task + textra task
 
 theorem liveN_filter_le (l : List Req) (p : Req → Bool) : liveN (l.filter p) ≤ liveN l := by
   induction l with
@@ -150,7 +160,7 @@ theorem term_fire (cfg : Cfg) (n : Nat) (ih : TermSpec cfg n) (s : StR) (k : Nat
     simp only
     have hw := hookW_lookup s.hooks k h hl
     have hb' : bound { s with hooks := s.hooks.filter (fun p => p.1 != k) } (.acts h) ≤ n := by
-      simp only [bound, pot, tsize, tbeta, textra] at hb ⊢; omega
+      simp only [bound, pot, tsize, tbeta, textra, talpha] at hb ⊢; omega
     obtain ⟨a, b⟩ := ih _ (.acts h) hb'
     refine ⟨(NoFuelOut.append (NoFuelOut.append (by simp [NoFuelOut]) a) (by simp [NoFuelOut])), ?_⟩
     simp only [pot, tsize] at b ⊢; omega
@@ -162,10 +172,10 @@ theorem term_fireAll (cfg : Cfg) (n : Nat) (ih : TermSpec cfg n) (s : StR) (l : 
   | nil => rw [exec_fireAll_nil]; simp [NoFuelOut]
   | cons p ps =>
     rw [exec_fireAll_cons]
-    simp only [bound, tsize, tbeta, textra, List.length_cons] at hb
-    obtain ⟨a1, b1⟩ := ih s (.fire p.1 p.2 r) (by simp only [bound, tsize, tbeta, textra]; omega)
+    simp only [bound, tsize, tbeta, textra, talpha, List.length_cons] at hb
+    obtain ⟨a1, b1⟩ := ih s (.fire p.1 p.2 r) (by simp only [bound, tsize, tbeta, textra, talpha]; omega)
     simp only [tsize] at b1
-    obtain ⟨a2, b2⟩ := ih (exec cfg n s (.fire p.1 p.2 r)).1 (.fireAll ps r) (by simp only [bound, tsize, tbeta, textra]; omega)
+    obtain ⟨a2, b2⟩ := ih (exec cfg n s (.fire p.1 p.2 r)).1 (.fireAll ps r) (by simp only [bound, tsize, tbeta, textra, talpha]; omega)
     simp only [tsize] at b2
     exact ⟨a1.append a2, by simp only [tsize, List.length_cons]; omega⟩
 
@@ -176,21 +186,21 @@ theorem term_acts (cfg : Cfg) (n : Nat) (ih : TermSpec cfg n) (s : StR) (as : Li
   | nil => simp [exec, NoFuelOut]
   | cons a as =>
     simp only [exec]
-    simp only [bound, tsize, tbeta, textra, List.length_cons] at hb
-    obtain ⟨a1, b1⟩ := ih s (.act a) (by simp only [bound, tsize, tbeta, textra]; omega)
+    simp only [bound, tsize, tbeta, textra, talpha, List.length_cons] at hb
+    obtain ⟨a1, b1⟩ := ih s (.act a) (by simp only [bound, tsize, tbeta, textra, talpha]; omega)
     simp only [tsize] at b1
-    obtain ⟨a2, b2⟩ := ih (exec cfg n s (.act a)).1 (.acts as) (by simp only [bound, tsize, tbeta, textra]; omega)
+    obtain ⟨a2, b2⟩ := ih (exec cfg n s (.act a)).1 (.acts as) (by simp only [bound, tsize, tbeta, textra, talpha]; omega)
     simp only [tsize] at b2
     exact ⟨a1.append a2, by simp only [tsize, List.length_cons]; omega⟩
 
 theorem term_act (cfg : Cfg) (n : Nat) (ih : TermSpec cfg n) (s : StR) (a : Action)
     (hb : bound s (.act a) ≤ n + 1) :
     NoFuelOut (exec cfg (n + 1) s (.act a)).2 ∧ pot (exec cfg (n + 1) s (.act a)).1 ≤ pot s + tsize (.act a) := by
-  simp only [bound, tsize, tbeta, textra] at hb
+  simp only [bound, tsize, tbeta, textra, talpha] at hb
   cases a with
   | close =>
     simp only [exec]
-    obtain ⟨a1, b1⟩ := ih s .close (by simp only [bound, tsize, tbeta, textra]; omega)
+    obtain ⟨a1, b1⟩ := ih s .close (by simp only [bound, tsize, tbeta, textra, talpha]; omega)
     simp only [tsize] at b1 ⊢
     exact ⟨a1, by omega⟩
   | disconnect =>
@@ -198,14 +208,18 @@ theorem term_act (cfg : Cfg) (n : Nat) (ih : TermSpec cfg n) (s : StR) (a : Acti
     split <;> exact ⟨noFuelOut_obs _, by simp only [pot, tsize]; omega⟩
   | cancel id =>
     simp only [exec]
-    obtain ⟨a1, b1⟩ := ih s (.cancel id) (by simp only [bound, tsize, tbeta, textra]; omega)
+    obtain ⟨a1, b1⟩ := ih s (.cancel id) (by simp only [bound, tsize, tbeta, textra, talpha]; omega)
     simp only [tsize] at b1 ⊢
     exact ⟨a1, by omega⟩
   | make id ex =>
     simp only [exec]
-    obtain ⟨a1, b1⟩ := ih s (.make id ex none) (by simp only [bound, tsize, tbeta, textra]; omega)
-    simp only [tsize] at b1 ⊢
-    exact ⟨a1, by omega⟩
+    split
+    · obtain ⟨a1, b1⟩ := ih s (.make id ex none) (by simp only [bound, tsize, tbeta, textra, talpha]; omega)
+      simp only [tsize] at b1 ⊢
+      exact ⟨a1, by omega⟩
+    · obtain ⟨a1, b1⟩ := ih s (.makeS id ex none) (by simp only [bound, tsize, tbeta, textra, talpha]; omega)
+      simp only [tsize] at b1 ⊢
+      exact ⟨a1, by omega⟩
 
 
 theorem liveN_append (l : List Req) (r : Req) : liveN (l ++ [r]) = liveN l + (if r.cancelled then 0 else 1) := by
@@ -224,13 +238,13 @@ theorem term_make (cfg : Cfg) (n : Nat) (ih : TermSpec cfg n) (s : StR) (id : In
       · exact ⟨by simp [NoFuelOut], by simp only [tsize]; omega⟩
       · split
         · obtain ⟨a1, b1⟩ := ih { s with core := { s.core with nmake := s.core.nmake + 1 }, hooks := s.hooks } (.fire s.core.nmake id (.err .clientError))
-            (by simp only [bound, pot, tsize, tbeta, textra, hookW] at hb ⊢; omega)
+            (by simp only [bound, pot, tsize, tbeta, textra, talpha, hookW] at hb ⊢; omega)
           refine ⟨?_, by simp only [pot, tsize, hookW] at b1 ⊢; omega⟩
           simpa [NoFuelOut] using a1
         · split
           · split
             · obtain ⟨a1, b1⟩ := ih { s with core := { s.core with nmake := s.core.nmake + 1 }, hooks := s.hooks } (.fire s.core.nmake id (.err .writeError))
-                (by simp only [bound, pot, tsize, tbeta, textra, hookW] at hb ⊢; omega)
+                (by simp only [bound, pot, tsize, tbeta, textra, talpha, hookW] at hb ⊢; omega)
               refine ⟨?_, by simp only [pot, tsize, hookW] at b1 ⊢; omega⟩
               simpa [NoFuelOut] using a1
             · split
@@ -238,7 +252,7 @@ theorem term_make (cfg : Cfg) (n : Nat) (ih : TermSpec cfg n) (s : StR) (id : In
                 simp only [pot, tsize, hookW, List.length_append, List.length_singleton, liveN_append, Bool.false_eq_true, if_false]
                 omega
               · obtain ⟨a1, b1⟩ := ih { s with core := { s.core with nmake := s.core.nmake + 1 }, hooks := s.hooks } (.fire s.core.nmake id .none)
-                  (by simp only [bound, pot, tsize, tbeta, textra, hookW] at hb ⊢; omega)
+                  (by simp only [bound, pot, tsize, tbeta, textra, talpha, hookW] at hb ⊢; omega)
                 refine ⟨?_, by simp only [pot, tsize, hookW] at b1 ⊢; omega⟩
                 split <;> simpa [NoFuelOut] using a1
           · split
@@ -254,13 +268,13 @@ theorem term_make (cfg : Cfg) (n : Nat) (ih : TermSpec cfg n) (s : StR) (id : In
       · exact ⟨by simp [NoFuelOut], by simp only [tsize]; omega⟩
       · split
         · obtain ⟨a1, b1⟩ := ih { s with core := { s.core with nmake := s.core.nmake + 1 }, hooks := (s.core.nmake, h) :: s.hooks } (.fire s.core.nmake id (.err .clientError))
-            (by simp only [bound, pot, tsize, tbeta, textra, hookW] at hb ⊢; omega)
+            (by simp only [bound, pot, tsize, tbeta, textra, talpha, hookW] at hb ⊢; omega)
           refine ⟨?_, by simp only [pot, tsize, hookW] at b1 ⊢; omega⟩
           simpa [NoFuelOut] using a1
         · split
           · split
             · obtain ⟨a1, b1⟩ := ih { s with core := { s.core with nmake := s.core.nmake + 1 }, hooks := (s.core.nmake, h) :: s.hooks } (.fire s.core.nmake id (.err .writeError))
-                (by simp only [bound, pot, tsize, tbeta, textra, hookW] at hb ⊢; omega)
+                (by simp only [bound, pot, tsize, tbeta, textra, talpha, hookW] at hb ⊢; omega)
               refine ⟨?_, by simp only [pot, tsize, hookW] at b1 ⊢; omega⟩
               simpa [NoFuelOut] using a1
             · split
@@ -268,7 +282,7 @@ theorem term_make (cfg : Cfg) (n : Nat) (ih : TermSpec cfg n) (s : StR) (id : In
                 simp only [pot, tsize, hookW, List.length_append, List.length_singleton, liveN_append, Bool.false_eq_true, if_false]
                 omega
               · obtain ⟨a1, b1⟩ := ih { s with core := { s.core with nmake := s.core.nmake + 1 }, hooks := (s.core.nmake, h) :: s.hooks } (.fire s.core.nmake id .none)
-                  (by simp only [bound, pot, tsize, tbeta, textra, hookW] at hb ⊢; omega)
+                  (by simp only [bound, pot, tsize, tbeta, textra, talpha, hookW] at hb ⊢; omega)
                 refine ⟨?_, by simp only [pot, tsize, hookW] at b1 ⊢; omega⟩
                 split <;> simpa [NoFuelOut] using a1
           · split
@@ -287,7 +301,7 @@ theorem term_cancel (cfg : Cfg) (n : Nat) (ih : TermSpec cfg n) (s : StR) (id : 
   split
   · obtain ⟨h1, h2⟩ := cancelTable_pot s.core.reqs id
     obtain ⟨a1, b1⟩ := ih { s with core := { s.core with reqs := cancelTable s.core.reqs id } } (.fireAll (liveWith s.core.reqs id) (.err .cancelled))
-      (by simp only [bound, pot, tsize, tbeta, textra] at hb ⊢; omega)
+      (by simp only [bound, pot, tsize, tbeta, textra, talpha] at hb ⊢; omega)
     exact ⟨a1, by simp only [pot, tsize] at b1 ⊢; omega⟩
   · exact ⟨by simp [NoFuelOut], by simp only [tsize]; omega⟩
 
@@ -305,29 +319,29 @@ theorem term_closeLoop (cfg : Cfg) (n : Nat) (ih : TermSpec cfg n) (s : StR)
       · exact List.mem_of_head? hsel
     have h1 := filter_remove_len s.core.reqs (fun r => r.serial != rq.serial) rq hrq (by simp)
     have h2 := liveN_filter_le s.core.reqs (fun r => r.serial != rq.serial)
-    simp only [bound, pot, tsize, tbeta, textra] at hb
+    simp only [bound, pot, tsize, tbeta, textra, talpha] at hb
     by_cases hc : rq.cancelled = true
     · simp only [hc, if_true]
       obtain ⟨a2, b2⟩ := ih { s with core := { s.core with reqs := s.core.reqs.filter (fun r => r.serial != rq.serial) } } .closeLoop
-        (by simp only [bound, pot, tsize, tbeta, textra]; omega)
+        (by simp only [bound, pot, tsize, tbeta, textra, talpha]; omega)
       exact ⟨by simpa using a2, by simp only [pot, tsize] at b2 ⊢; omega⟩
     · simp only [hc, Bool.false_eq_true, if_false]
       obtain ⟨a1, b1⟩ := ih { s with core := { s.core with reqs := s.core.reqs.filter (fun r => r.serial != rq.serial) } }
-        (.fire rq.serial rq.id (.err .clientError)) (by simp only [bound, pot, tsize, tbeta, textra]; omega)
+        (.fire rq.serial rq.id (.err .clientError)) (by simp only [bound, pot, tsize, tbeta, textra, talpha]; omega)
       simp only [pot, tsize] at b1
       obtain ⟨a2, b2⟩ := ih (exec cfg n { s with core := { s.core with reqs := s.core.reqs.filter (fun r => r.serial != rq.serial) } }
-        (.fire rq.serial rq.id (.err .clientError))).1 .closeLoop (by simp only [bound, pot, tsize, tbeta, textra]; omega)
+        (.fire rq.serial rq.id (.err .clientError))).1 .closeLoop (by simp only [bound, pot, tsize, tbeta, textra, talpha]; omega)
       exact ⟨a1.append a2, by simp only [pot, tsize] at b2 ⊢; omega⟩
 
 theorem term_close (cfg : Cfg) (n : Nat) (ih : TermSpec cfg n) (s : StR)
     (hb : bound s .close ≤ n + 1) :
     NoFuelOut (exec cfg (n + 1) s .close).2 ∧ pot (exec cfg (n + 1) s .close).1 ≤ pot s + tsize .close := by
   simp only [exec]
-  simp only [bound, pot, tsize, tbeta, textra] at hb
+  simp only [bound, pot, tsize, tbeta, textra, talpha] at hb
   have core : ∀ c' : St, c'.reqs = s.core.reqs →
       NoFuelOut (exec cfg n { s with core := c' } .closeLoop).2 ∧ pot (exec cfg n { s with core := c' } .closeLoop).1 ≤ pot s := by
     intro c' h1
-    obtain ⟨a, b⟩ := ih { s with core := c' } .closeLoop (by simp only [bound, pot, tsize, tbeta, textra, h1]; omega)
+    obtain ⟨a, b⟩ := ih { s with core := c' } .closeLoop (by simp only [bound, pot, tsize, tbeta, textra, talpha, h1]; omega)
     exact ⟨a, by simp only [pot, tsize, h1] at b ⊢; omega⟩
   simp only [tsize, Nat.add_zero]
   split
@@ -349,12 +363,12 @@ theorem term_sendLoop (cfg : Cfg) (n : Nat) (ih : TermSpec cfg n) (s : StR) (con
   | nil => rw [exec_sendLoop_nil]; exact ⟨by simp [NoFuelOut], by simp only [tsize]; omega⟩
   | cons k ks =>
     rw [exec_sendLoop_cons]
-    simp only [bound, pot, tsize, tbeta, textra, List.length_cons] at hb
+    simp only [bound, pot, tsize, tbeta, textra, talpha, List.length_cons] at hb
     simp only [tsize, Nat.add_zero]
     cases hsel : s.core.reqs.filter (fun r => r.serial == k && !r.sent) with
     | nil =>
       simp only
-      obtain ⟨a, b⟩ := ih s (.sendLoop conn ks) (by simp only [bound, pot, tsize, tbeta, textra]; omega)
+      obtain ⟨a, b⟩ := ih s (.sendLoop conn ks) (by simp only [bound, pot, tsize, tbeta, textra, talpha]; omega)
       exact ⟨a, by simpa only [tsize, Nat.add_zero] using b⟩
     | cons rq rest =>
       simp only
@@ -368,11 +382,11 @@ theorem term_sendLoop (cfg : Cfg) (n : Nat) (ih : TermSpec cfg n) (s : StR) (con
           NoFuelOut (o1 ++ (exec cfg n s1 (.sendLoop conn ks)).2) ∧ pot (exec cfg n s1 (.sendLoop conn ks)).1 ≤ pot s := by
         intro s1 o1 ho hp
         simp only [pot] at hp
-        obtain ⟨a, b⟩ := ih s1 (.sendLoop conn ks) (by simp only [bound, pot, tsize, tbeta, textra]; omega)
+        obtain ⟨a, b⟩ := ih s1 (.sendLoop conn ks) (by simp only [bound, pot, tsize, tbeta, textra, talpha]; omega)
         exact ⟨ho.append a, by simp only [pot, tsize] at b ⊢; omega⟩
       split
       · obtain ⟨a1, b1⟩ := ih { s with core := { s.core with reqs := s.core.reqs.filter (fun r => r.serial != k) } }
-          (.fire k rq.id (.err .writeError)) (by simp only [bound, pot, tsize, tbeta, textra]; omega)
+          (.fire k rq.id (.err .writeError)) (by simp only [bound, pot, tsize, tbeta, textra, talpha]; omega)
         exact step2 _ _ a1 (by simp only [pot, tsize] at b1 ⊢; omega)
       · split
         · refine step2 _ _ (by split <;> simp [NoFuelOut]) ?_
@@ -380,7 +394,7 @@ theorem term_sendLoop (cfg : Cfg) (n : Nat) (ih : TermSpec cfg n) (s : StR) (con
           rw [liveN_map_keep _ _ (by intro r; split <;> rfl)]
           omega
         · obtain ⟨a1, b1⟩ := ih { s with core := { s.core with reqs := s.core.reqs.filter (fun r => r.serial != k) } }
-            (.fire k rq.id .none) (by simp only [bound, pot, tsize, tbeta, textra]; omega)
+            (.fire k rq.id .none) (by simp only [bound, pot, tsize, tbeta, textra, talpha]; omega)
           refine step2 _ _ ?_ (by simp only [pot, tsize] at b1 ⊢; omega)
           split <;> simpa [NoFuelOut] using a1
 
@@ -395,17 +409,22 @@ theorem term_frames (cfg : Cfg) (n : Nat) (ih : TermSpec cfg n) (s : StR) (conn 
     split <;> exact ⟨by simp [NoFuelOut], by simp only [pot]; omega⟩
   | cons b bs =>
     rw [exec_frames_cons]
-    simp only [bound, pot, tsize, tbeta, textra, List.length_cons] at hb
+    simp only [bound, pot, tsize, tbeta, textra, talpha, List.length_cons] at hb
     cases hid : corrId b with
     | none =>
       simp only
       obtain ⟨h1, h2⟩ := lost_pot s.core.reqs
-      refine ⟨?_, ?_⟩
-      · have := noFuelOut_obs (lostStep s.core).2
-        simp only [NoFuelOut, List.mem_cons, not_or] at this ⊢
-        exact ⟨by simp, this⟩
-      · simp only [pot, lostStep, connect_, tryConnect]
-        split <;> (try split) <;> simp only <;> omega
+      split
+      · refine ⟨?_, ?_⟩
+        · have := noFuelOut_obs (lostStep s.core).2
+          simp only [NoFuelOut, List.mem_cons, not_or] at this ⊢
+          exact ⟨by simp, this⟩
+        · simp only [pot, lostStep, connect_, tryConnect]
+          split <;> (try split) <;> simp only <;> omega
+      · obtain ⟨a1, b1⟩ := ih s .lost (by simp only [bound, pot, tsize, tbeta, textra, talpha]; omega)
+        refine ⟨?_, by simp only [pot, tsize] at b1 ⊢; omega⟩
+        simp only [NoFuelOut, List.mem_cons, not_or] at a1 ⊢
+        exact ⟨by simp, a1⟩
     | some id =>
       simp only
       obtain ⟨h1, h2⟩ := filterId_pot s.core.reqs id
@@ -413,14 +432,68 @@ theorem term_frames (cfg : Cfg) (n : Nat) (ih : TermSpec cfg n) (s : StR) (conn 
           NoFuelOut (o1 ++ (exec cfg n s1 (.frames conn bs f)).2) ∧ pot (exec cfg n s1 (.frames conn bs f)).1 ≤ pot s := by
         intro s1 o1 ho hp
         simp only [pot] at hp
-        obtain ⟨a, b⟩ := ih s1 (.frames conn bs f) (by simp only [bound, pot, tsize, tbeta, textra]; omega)
+        obtain ⟨a, b⟩ := ih s1 (.frames conn bs f) (by simp only [bound, pot, tsize, tbeta, textra, talpha]; omega)
         exact ⟨ho.append a, by simp only [pot, tsize] at b ⊢; omega⟩
       split
       · obtain ⟨a1, b1⟩ := ih { s with core := { s.core with reqs := s.core.reqs.filter (fun r => r.id != id) } }
-          (.fireAll (liveWith s.core.reqs id) (.ok b)) (by simp only [bound, pot, tsize, tbeta, textra]; omega)
+          (.fireAll (liveWith s.core.reqs id) (.ok b)) (by simp only [bound, pot, tsize, tbeta, textra, talpha]; omega)
         exact step2 _ _ a1 (by simp only [pot, tsize, liveWith] at b1 h2 ⊢; omega)
       · have := liveN_filter_le s.core.reqs (fun r => r.id != id)
         exact step2 _ _ (by simp [NoFuelOut]) (by simp only [pot]; omega)
+
+theorem term_dial (cfg : Cfg) (n : Nat) (ih : TermSpec cfg n) (s : StR) (hb : bound s .dial ≤ n + 1) :
+    NoFuelOut (exec cfg (n + 1) s .dial).2 ∧ pot (exec cfg (n + 1) s .dial).1 ≤ pot s + tsize .dial := by
+  simp only [exec]
+  simp only [bound, pot, tsize, tbeta, textra, talpha] at hb
+  simp only [tsize, Nat.add_zero]
+  split
+  · exact ⟨by simp [NoFuelOut], Nat.le_refl _⟩
+  · split
+    · exact ⟨by simp [NoFuelOut], by simp only [pot]; omega⟩
+    · exact ⟨by simp [NoFuelOut], by simp only [pot]; omega⟩
+    · obtain ⟨a1, b1⟩ := ih { s with core := established s.core } (.sendLoop s.core.nconn (s.core.reqs.map (·.serial)))
+        (by simp only [bound, pot, tsize, tbeta, textra, talpha, established, List.length_map]; omega)
+      refine ⟨?_, by simp only [pot, tsize, established] at b1 ⊢; omega⟩
+      simp only [NoFuelOut, List.mem_cons, not_or] at a1 ⊢
+      exact ⟨by simp, a1⟩
+
+theorem term_lost (cfg : Cfg) (n : Nat) (ih : TermSpec cfg n) (s : StR) (hb : bound s .lost ≤ n + 1) :
+    NoFuelOut (exec cfg (n + 1) s .lost).2 ∧ pot (exec cfg (n + 1) s .lost).1 ≤ pot s + tsize .lost := by
+  simp only [exec]
+  simp only [bound, pot, tsize, tbeta, textra, talpha] at hb
+  simp only [tsize, Nat.add_zero]
+  obtain ⟨h1, h2⟩ := lost_pot s.core.reqs
+  split
+  · exact ⟨by simp [NoFuelOut], by simp only [pot]; omega⟩
+  · split
+    · exact ⟨by simp [NoFuelOut], by simp only [pot]; omega⟩
+    · have step : ∀ s1 : StR, pot s1 ≤ pot s → NoFuelOut (exec cfg n s1 .dial).2 ∧ pot (exec cfg n s1 .dial).1 ≤ pot s := by
+        intro s1 hp
+        simp only [pot] at hp
+        obtain ⟨a1, b1⟩ := ih s1 .dial (by simp only [bound, pot, tsize, tbeta, textra, talpha]; omega)
+        exact ⟨a1, by simp only [pot, tsize] at b1 ⊢; omega⟩
+      exact step _ (by simp only [pot]; omega)
+
+theorem term_makeS (cfg : Cfg) (n : Nat) (ih : TermSpec cfg n) (s : StR) (id : Int) (ex : Bool) (hk0 : Option Hook)
+    (hb : bound s (.makeS id ex hk0) ≤ n + 1) :
+    NoFuelOut (exec cfg (n + 1) s (.makeS id ex hk0)).2 ∧
+    pot (exec cfg (n + 1) s (.makeS id ex hk0)).1 ≤ pot s + tsize (.makeS id ex hk0) := by
+  have hts : tsize (.makeS id ex hk0) = tsize (.make id ex hk0) := rfl
+  simp only [bound, tbeta, textra, talpha, hts] at hb
+  rw [hts]
+  simp only [exec]
+  split
+  · split
+    · obtain ⟨a1, b1⟩ := ih { s with core := established s.core } (.make id ex hk0)
+        (by simp only [bound, tbeta, textra, talpha, pot, established] at hb ⊢; omega)
+      refine ⟨?_, by simp only [pot, established] at b1 ⊢; omega⟩
+      simp only [NoFuelOut, List.mem_cons, not_or] at a1 ⊢
+      exact ⟨by simp, a1⟩
+    · refine ⟨by simp [NoFuelOut], ?_⟩
+      cases hk0 <;>
+        simp only [pot, tsize, hookW, List.length_append, List.length_singleton, liveN_append, Bool.false_eq_true, if_false] <;> omega
+  · obtain ⟨a1, b1⟩ := ih s (.make id ex hk0) (by simp only [bound, tbeta, textra, talpha]; omega)
+    exact ⟨a1, b1⟩
 
 /-- `exec` terminates: with fuel `bound s task` it never reaches the bottom -/
 theorem termSpec (cfg : Cfg) : ∀ n, TermSpec cfg n := by
@@ -440,6 +513,9 @@ theorem termSpec (cfg : Cfg) : ∀ n, TermSpec cfg n := by
     | closeLoop => exact term_closeLoop cfg n ih s hb
     | sendLoop c snap => exact term_sendLoop cfg n ih s c snap hb
     | frames c fs f => exact term_frames cfg n ih s c fs f hb
+    | makeS id ex h => exact term_makeS cfg n ih s id ex h hb
+    | lost => exact term_lost cfg n ih s hb
+    | dial => exact term_dial cfg n ih s hb
 
 
 /-! ## more fuel changes nothing once the fuel suffices -/
@@ -451,7 +527,47 @@ theorem exec_acts_cons (cfg : Cfg) (n : Nat) (s : StR) (a : Action) (as : List A
 theorem exec_act_close (cfg : Cfg) (n : Nat) (s : StR) : exec cfg (n + 1) s (.act .close) = exec cfg n s .close := rfl
 theorem exec_act_cancel (cfg : Cfg) (n : Nat) (s : StR) (id : Int) : exec cfg (n + 1) s (.act (.cancel id)) = exec cfg n s (.cancel id) := rfl
 theorem exec_act_make (cfg : Cfg) (n : Nat) (s : StR) (id : Int) (ex : Bool) :
-    exec cfg (n + 1) s (.act (.make id ex)) = exec cfg n s (.make id ex none) := rfl
+    exec cfg (n + 1) s (.act (.make id ex)) =
+      if s.sync = .none then exec cfg n s (.make id ex none) else exec cfg n s (.makeS id ex none) := rfl
+
+theorem exec_dial_eq (cfg : Cfg) (n : Nat) (s : StR) :
+    exec cfg (n + 1) s .dial =
+      if s.core.closed then (s, [.ob .badOp])
+      else
+        match s.sync with
+        | .none => ({ s with core := { s.core with connector := .attempt } }, [.ob (.connect s.core.host s.core.port)])
+        | .fail =>
+          ({ s with core := { s.core with failures := s.core.failures + 1, connector := .backoff (s.core.now + cfg.policy (s.core.failures + 1)) } },
+           [.ob (.connect s.core.host s.core.port), .ob (.setTimer (cfg.policy (s.core.failures + 1)))])
+        | .ok =>
+          ((exec cfg n { s with core := established s.core } (.sendLoop s.core.nconn (s.core.reqs.map (·.serial)))).1,
+           .ob (.connect s.core.host s.core.port) ::
+             (exec cfg n { s with core := established s.core } (.sendLoop s.core.nconn (s.core.reqs.map (·.serial)))).2) := rfl
+
+/-- the table `_connectionLost` leaves -/
+def lostCore (c : St) : St :=
+  { c with proto := none, losing := false, rbuf := [],
+           reqs := (c.reqs.filter (fun r => !r.cancelled)).map (fun r => { r with sent := false }) }
+
+theorem exec_lost_eq (cfg : Cfg) (n : Nat) (s : StR) :
+    exec cfg (n + 1) s .lost =
+      if s.core.closed then ({ s with core := lostCore s.core }, [.ob .down])
+      else if (lostCore s.core).reqs.isEmpty then ({ s with core := lostCore s.core }, [])
+      else exec cfg n { s with core := { lostCore s.core with failures := 0 } } .dial := rfl
+
+theorem exec_makeS_eq (cfg : Cfg) (n : Nat) (s : StR) (id : Int) (ex : Bool) (h : Option Hook) :
+    exec cfg (n + 1) s (.makeS id ex h) =
+      if s.sync != .none && !s.core.closed && s.core.proto.isNone && s.core.connector == .none && !s.core.reqs.any (fun r => r.id == id) then
+        match s.sync with
+        | .ok => ((exec cfg n { s with core := established s.core } (.make id ex h)).1,
+                  .ob (.connect s.core.host s.core.port) :: (exec cfg n { s with core := established s.core } (.make id ex h)).2)
+        | _ =>
+          ({ s with core := { s.core with nmake := s.core.nmake + 1,
+                                          reqs := s.core.reqs ++ [{ serial := s.core.nmake, id, expect := ex, sent := false, cancelled := false }],
+                                          failures := 1, connector := .backoff (s.core.now + cfg.policy 1) },
+                    hooks := match h with | some h => (s.core.nmake, h) :: s.hooks | none => s.hooks },
+           [.ob (.connect s.core.host s.core.port), .ob (.setTimer (cfg.policy 1)), .made s.core.nmake id])
+      else exec cfg n s (.make id ex h) := rfl
 theorem exec_act_disconnect (cfg : Cfg) (n : Nat) (s : StR) :
     exec cfg (n + 1) s (.act .disconnect) = ({ s with core := (step cfg s.core .disconnect).1 }, obs (step cfg s.core .disconnect).2) := rfl
 
@@ -565,7 +681,12 @@ theorem exec_mono (cfg : Cfg) : ∀ (n : Nat) (s : StR) (task : Task), NoFuelOut
       | close => rw [exec_act_close cfg n] at hnf; rw [exec_act_close cfg (n + 1), exec_act_close cfg n]; exact ih _ _ hnf
       | disconnect => rfl
       | cancel id => rw [exec_act_cancel cfg n] at hnf; rw [exec_act_cancel cfg (n + 1), exec_act_cancel cfg n]; exact ih _ _ hnf
-      | make id ex => rw [exec_act_make cfg n] at hnf; rw [exec_act_make cfg (n + 1), exec_act_make cfg n]; exact ih _ _ hnf
+      | make id ex =>
+        rw [exec_act_make cfg n] at hnf
+        rw [exec_act_make cfg (n + 1), exec_act_make cfg n]
+        split
+        · rename_i hsy; rw [if_pos hsy] at hnf; exact ih _ _ hnf
+        · rename_i hsy; rw [if_neg hsy] at hnf; exact ih _ _ hnf
     | make id ex h =>
       rw [exec_make_eq cfg n] at hnf
       rw [exec_make_eq cfg (n + 1), exec_make_eq cfg n]
@@ -656,7 +777,13 @@ theorem exec_mono (cfg : Cfg) : ∀ (n : Nat) (s : StR) (task : Task), NoFuelOut
         rw [exec_frames_cons cfg n] at hnf
         rw [exec_frames_cons cfg (n + 1), exec_frames_cons cfg n]
         cases hid : corrId b with
-        | none => rfl
+        | none =>
+          simp only [hid] at hnf ⊢
+          split
+          · rfl
+          · rename_i hsy
+            rw [if_neg hsy] at hnf
+            rw [ih _ _ hnf.cons]
         | some id =>
           simp only [hid] at hnf ⊢
           by_cases hany : s.core.reqs.any (fun r => r.id == id) = true
@@ -664,6 +791,45 @@ theorem exec_mono (cfg : Cfg) : ∀ (n : Nat) (s : StR) (task : Task), NoFuelOut
             rw [ih _ _ hnf.append_left, ih _ _ hnf.append_right]
           · simp only [hany, Bool.false_eq_true, if_false] at hnf ⊢
             rw [ih _ _ hnf.append_right]
+    | makeS id ex h =>
+      rw [exec_makeS_eq cfg n] at hnf
+      rw [exec_makeS_eq cfg (n + 1), exec_makeS_eq cfg n]
+      split
+      · rename_i hcond
+        rw [if_pos hcond] at hnf
+        split
+        · rename_i hsy
+          simp only [hsy] at hnf ⊢
+          rw [ih _ _ hnf.cons]
+        · rfl
+      · rename_i hcond
+        rw [if_neg hcond] at hnf
+        exact ih _ _ hnf
+    | lost =>
+      rw [exec_lost_eq cfg n] at hnf
+      rw [exec_lost_eq cfg (n + 1), exec_lost_eq cfg n]
+      split
+      · rfl
+      · rename_i hc
+        rw [if_neg hc] at hnf
+        split
+        · rfl
+        · rename_i he
+          rw [if_neg he] at hnf
+          exact ih _ _ hnf
+    | dial =>
+      rw [exec_dial_eq cfg n] at hnf
+      rw [exec_dial_eq cfg (n + 1), exec_dial_eq cfg n]
+      split
+      · rfl
+      · rename_i hc
+        rw [if_neg hc] at hnf
+        split
+        · rfl
+        · rfl
+        · rename_i hsy
+          simp only [hsy] at hnf ⊢
+          rw [ih _ _ hnf.cons]
 
 theorem exec_mono_le (cfg : Cfg) (s : StR) (task : Task) (n : Nat) (hnf : NoFuelOut (exec cfg n s task).2) :
     ∀ m, n ≤ m → exec cfg m s task = exec cfg n s task := by
@@ -682,8 +848,10 @@ theorem exec_mono_le (cfg : Cfg) (s : StR) (task : Task) (n : Nat) (hnf : NoFuel
 
 /-- fuel that suffices for one top-level step from `s` -/
 def evBound (s : StR) : EvR → Nat
-  | .make id ex h => bound s (.make id ex h)
-  | .flat (.make id ex) => bound s (.make id ex none)
+  | .make id ex h => if s.sync = .none then bound s (.make id ex h) else bound s (.makeS id ex h)
+  | .flat (.make id ex) => if s.sync = .none then bound s (.make id ex none) else bound s (.makeS id ex none)
+  | .flat .lost => bound s .lost
+  | .flat (.advance dt) => bound { s with core := { s.core with now := s.core.now + dt } } .dial
   | .flat (.cancel id) => bound s (.cancel id)
   | .flat .close => bound s .close
   | .flat .connOk =>
@@ -702,11 +870,20 @@ theorem step_suffices (cfg : Cfg) (s : StR) (e : EvR) (fuel : Nat) (hf : evBound
     have e := exec_mono_le cfg s' t (bound s' t) h0 fuel hb
     exact ⟨by rw [e]; exact h0, e⟩
   cases e with
-  | make id ex h => exact key s (.make id ex h) hf
+  | make id ex h =>
+    simp only [stepRWith, evBound] at hf ⊢
+    split
+    · rename_i hsy; rw [if_pos hsy] at hf; exact key s (.make id ex h) hf
+    · rename_i hsy; rw [if_neg hsy] at hf; exact key s (.makeS id ex h) hf
   | stubborn on => exact ⟨by simp [stepRWith, NoFuelOut], rfl⟩
+  | syncMode sm => exact ⟨by simp [stepRWith, NoFuelOut], rfl⟩
   | flat e =>
     cases e with
-    | make id ex => exact key s (.make id ex none) hf
+    | make id ex =>
+      simp only [stepRWith, evBound] at hf ⊢
+      split
+      · rename_i hsy; rw [if_pos hsy] at hf; exact key s (.make id ex none) hf
+      · rename_i hsy; rw [if_neg hsy] at hf; exact key s (.makeS id ex none) hf
     | cancel id => exact key s (.cancel id) hf
     | close => exact key s .close hf
     | connOk =>
@@ -726,8 +903,24 @@ theorem step_suffices (cfg : Cfg) (s : StR) (e : EvR) (fuel : Nat) (hf : evBound
           have := key s (.frames c (feed s.core.rbuf chunk).frames (feed s.core.rbuf chunk)) (by simpa [evBound, hp] using hf)
           simpa [evBound, hp] using this
     | connFail => exact ⟨noFuelOut_obs _, rfl⟩
-    | advance dt => exact ⟨noFuelOut_obs _, rfl⟩
-    | lost => exact ⟨noFuelOut_obs _, rfl⟩
+    | advance dt =>
+      simp only [stepRWith, evBound] at hf ⊢
+      split
+      · exact ⟨noFuelOut_obs _, rfl⟩
+      · split
+        · exact ⟨by simp [NoFuelOut], rfl⟩
+        · split
+          · split
+            · exact key _ _ hf
+            · exact ⟨by simp [NoFuelOut], rfl⟩
+          · exact ⟨by simp [NoFuelOut], rfl⟩
+    | lost =>
+      simp only [stepRWith, evBound] at hf ⊢
+      split
+      · exact ⟨noFuelOut_obs _, rfl⟩
+      · split
+        · exact ⟨by simp [NoFuelOut], rfl⟩
+        · exact key s .lost hf
     | disconnect => exact ⟨noFuelOut_obs _, rfl⟩
     | updateMetadata a b => exact ⟨noFuelOut_obs _, rfl⟩
     | writeFail b => exact ⟨noFuelOut_obs _, rfl⟩
